@@ -102,10 +102,12 @@ def RefKind.sub : RefKind → TSub
 structure Sem (V : Type) where
   /-- tokenToFormulaArg -/
   ofTok : Tok → V
-  /-- `newNumberFormulaArg(0 - opd.ToNumber().Number)` -/
-  neg : V → V
-  /-- `newNumberFormulaArg(topOpd.Number / 100)` -/
-  pct : V → V
+  /-- prefix minus in `calculate` (repository fix e2ee6cd): blank → 0, an error operand or a failed
+  `ToNumber` returns an error (`none`), otherwise `newNumberFormulaArg(0 - num.Number)` -/
+  neg : V → Option V
+  /-- postfix `%` in `parseToken` (repository fix 85214fa): same coercion, then
+  `newNumberFormulaArg(num.Number / 100)`; `none` = `parseToken` returns an error -/
+  pct : V → Option V
   /-- infix minus: `calcSubtract(rOpd, lOpd, …)` -/
   sub2 : V → V → BinRes V
   /-- `tokenCalcFunc[op]` including the blank→0 and error pre-checks of `calculate`; arguments (op, rOpd, lOpd) -/
@@ -147,7 +149,10 @@ def calcNeg {V} (S : Sem V) (opd : List V) (t : Tok) : CalcRes V :=
   if t.val == "-" && t.ty == .opPrefix then
     match opd with
     | [] => ⟨opd, true⟩
-    | x :: r => ⟨S.neg x :: r, false⟩
+    | x :: r =>
+      match S.neg x with
+      | some v => ⟨v :: r, false⟩
+      | none => ⟨r, true⟩
   else ⟨opd, false⟩
 
 def calcSub {V} (S : Sem V) (opd : List V) (t : Tok) : CalcRes V :=
@@ -204,13 +209,14 @@ def closeParen {V} (S : Sem V) : List Tok → List V → Outcome (List Tok × Li
       let c := calculate S opd top
       if c.failed then .err else closeParen S rest c.opd
 
-/-- `if token.TType == efp.TokenTypeOperatorPostfix && !opdStack.Empty() { pop; push(Number / 100) }` -/
-def applyPostfix {V} (S : Sem V) (t : Tok) (opd : List V) : List V :=
+/-- `if token.TType == efp.TokenTypeOperatorPostfix && !opdStack.Empty() { pop; coerce; push(num / 100) }`;
+`none` = the coercion failed and `parseToken` returns the error -/
+def applyPostfix {V} (S : Sem V) (t : Tok) (opd : List V) : Option (List V) :=
   if t.ty == .opPostfix then
     match opd with
-    | [] => opd
-    | x :: r => S.pct x :: r
-  else opd
+    | [] => some opd
+    | x :: r => (S.pct x).map (· :: r)
+  else some opd
 
 /-- `parseToken(ctx, sheet, token, opdStack, optStack)` -/
 def parseToken {V} (S : Sem V) (t0 : Tok) (opd : List V) (opt : List Tok) :
@@ -237,7 +243,9 @@ def parseToken {V} (S : Sem V) (t0 : Tok) (opd : List V) (opt : List Tok) :
   | .panic => .panic
   | .ok (opt, opd) =>
   -- postfix %
-  let opd := applyPostfix S t opd
+  match applyPostfix S t opd with
+  | none => .err
+  | some opd =>
   -- operand
   let opd := if isOperand t then S.ofTok t :: opd else opd
   .ok (opd, opt)
